@@ -214,7 +214,7 @@ class ApplicationAssociationRequest:
         if not aarq_tag == cls.TAG:
             raise ValueError("Bytes are not an AARQ APDU. TAg is not int(96)")
 
-        aarq_length = aarq_data.pop(0)
+        aarq_length = BER.pop_length(aarq_data)
 
         if not len(aarq_data) == aarq_length:
             raise ValueError(
@@ -236,7 +236,7 @@ class ApplicationAssociationRequest:
                     f"in AARQ definition"
                 )
 
-            object_length = aarq_data.pop(0)
+            object_length = BER.pop_length(aarq_data)
             object_data = bytes(aarq_data[:object_length])
             aarq_data = aarq_data[object_length:]
 
@@ -278,14 +278,14 @@ class ApplicationAssociationRequest:
         client_system_title = object_dict.pop("calling_ap_title", None)
         if client_system_title:
             # it is ber encoded universal tag ocetctring. simple handling
-            object_dict["system_title"] = client_system_title[2:]
+            object_dict["system_title"] = bytes(BER.decode(client_system_title)[2])
         else:
             object_dict["system_title"] = None
 
         client_public_cert = object_dict.pop("calling_ae_qualifier", None)
         if client_public_cert:
             # it is ber encoded universal tag ocetctring. simple handling
-            object_dict["public_cert"] = client_public_cert[2:]
+            object_dict["public_cert"] = bytes(BER.decode(client_public_cert)[2])
         else:
             object_dict["public_cert"] = None
 
